@@ -345,6 +345,8 @@ class C06(Check):
             sig['family'] = e.family.name
             if getattr(doc, 'tag', None):
                 sig['doc_tag'] = doc.tag
+            if '[' in (op.get('path') or ''):
+                sig['path_kind'] = 'predicate'
             if depth == 1 or os.environ.get('VERIF_C06_DEEP'):
                 if depth > 1:
                     sig['depth'] = 'deep'
